@@ -1,5 +1,9 @@
 """C04 — transpiled XMILE stock/flow dynamics are Euler-exact for any dt and match the SD DSL.
 
+Wave 2: stock skeletons for ANY number of in/outflows (driver-side token equality + `stock_text_denotes`), GridOK on doubles
+clause by clause (tie to C05's `normalize`), non-negative stocks and flows defined by a graphical function (probe of the
+repaired mechanism fixes/C04-flow-gf), reciprocal dt 1/3 1/6 1/7 1/9 1/12 and calendar-year starts in every run.
+
 Probe (StockExpressions skeletons for 0..3 inflows x 0..3 outflows, memo-key normalisation), Gen
 obligations, correspondence (generated stock/flow graphs written as XMILE *and* as SD-DSL model, compiled
 and simulated by the real code, compared bit-exactly with the Lean driver and with each other) and the
@@ -12,8 +16,14 @@ import pyfrag
 # ---------------------------------------------------------------- run specs
 # (decimal text | None, reciprocal int | None)
 DTS = [("1", None), ("0.5", None), ("0.25", None), ("0.125", None), ("0.2", None), ("0.1", None), ("0.05", None),
-       ("0.01", None), (None, 3), (None, 7), (None, 8), (None, 10), (None, 4), (None, 2)]
-STARTS = ["0", "1", "0.5", "2"]
+       ("0.01", None), (None, 3), (None, 7), (None, 8), (None, 10), (None, 4), (None, 2),
+       (None, 9), (None, 12), (None, 6)]          # wave 2: more reciprocals that are neither binary nor decimal
+STARTS = ["0", "1", "0.5", "2", "2020", "1999.5"]  # wave 2: calendar-year starts (ulp(2020) = 2.3e-13 > 1e-14: rounding to
+                                                  # decimal places does not repair t-dt there, only index snapping does)
+# run specs that every quick run exercises systematically (seeded defect: index snapping replaced by decimal rounding)
+W2_SPECS = [((None, 3), "2020"), ((None, 7), "2020"), ((None, 9), "2020"), ((None, 12), "2020"), ((None, 6), "2020"),
+            ((None, 3), "0"), ((None, 7), "1"), ((None, 9), "0"), ((None, 12), "1999.5"), ((None, 6), "0.5"),
+            (("0.1", None), "2020"), (("0.05", None), "2020"), (("0.2", None), "1999.5"), (("0.01", None), "2020")]
 LITS = [0.25, 0.5, 1.0, 2.0, 3.0, 0.1, 0.3, 0.7, 1.5, 4.0, 10.0, 0.05, 0.2]
 CMPS = {"lt": "<", "le": "<=", "gt": ">", "ge": ">="}
 
@@ -44,7 +54,8 @@ def grid_spec(rng, quick):
 
 # ---------------------------------------------------------------- graphs
 # Ex: ("L", float) ("R", n) ("T",) ("D",) (op, a, b) op in + - * / M m   ("?", cmp, a, b, x, y)
-# elem: ("stock", init, ins, outs) ("flow", nonneg, ex) ("aux", ex) ("gf", ex, [(x, y), ...])
+# elem: ("stock", init, ins, outs[, nonneg]) ("flow", nonneg, ex) ("aux", ex) ("gf", ex, [(x, y), ...], mode)
+#       ("gflow", nonneg, ex, [(x, y), ...], mode)   -- wave 2: <flow><eqn/><gf/>[<non_negative/>]</flow>
 
 def gen_ex(rng, refs, consts, depth):
     """refs: element indices usable at the same time; consts: indices of constant auxiliaries"""
@@ -116,7 +127,7 @@ def gen_graph(rng):
             want_out = rng.range(4, 7)
         while len(ins[s]) < want_in:
             i = len(elems)
-            elems.append(("flow", rng.chance(1, 2), gen_ex(rng, refs + later, consts, 2)))
+            elems.append(gen_flow(rng, refs + later, consts))
             later.append(i)
             ins[s].append(i)
             o = [x for x in stocks if x != s and len(outs[x]) < 3]
@@ -124,7 +135,7 @@ def gen_graph(rng):
                 outs[rng.choice(o)].append(i)
         while len(outs[s]) < want_out:
             i = len(elems)
-            elems.append(("flow", rng.chance(1, 2), gen_ex(rng, refs + later, consts, 2)))
+            elems.append(gen_flow(rng, refs + later, consts))
             later.append(i)
             outs[s].append(i)
     for s in stocks:
@@ -135,8 +146,52 @@ def gen_graph(rng):
             init = ("R", rng.choice(consts))
         else:
             init = gen_ex(rng, consts, consts, 1)
-        elems[s] = ("stock", init, ins[s], outs[s])
+        nn = rng.chance(1, 4)            # wave 2: <non_negative/> on the stock
+        if nn and rng.chance(1, 2):      # an initial value the clamp has to act on
+            init = ("-", ("L", rng.choice([0.0, 0.5, 1.0])), ("L", rng.choice([2.0, 3.0, 10.0])))
+        elems[s] = ("stock", init, ins[s], outs[s], nn)
     return elems
+
+
+def el_eq(el):
+    """the equation of an element (for a stock: its initial value)"""
+    return el[2] if el[0] in ("flow", "gflow") else el[1]
+
+
+def stock_nn(el):
+    return len(el) > 4 and bool(el[4])
+
+
+def el_table(el):
+    """(points, mode) of an element that carries a graphical function, else None"""
+    if el[0] == "gf":
+        return el[2], el[3]
+    if el[0] == "gflow":
+        return el[3], el[4]
+    return None
+
+
+def gen_table(rng):
+    n = rng.range(2, 6)
+    if rng.chance(1, 2):
+        lo, hi = rng.choice([(0.0, 10.0), (0.0, 1.0), (1.0, 13.0), (-5.0, 5.0)])
+        xs = [lo + k * (hi - lo) / (n - 1) for k in range(n)]
+        mode = ("scale", lo, hi)
+    else:
+        xs = sorted({rng.choice([0.0, 0.5, 1.0, 2.0, 2.5, 3.0, 4.5, 6.0, 7.0, 8.0, 10.0, 12.5]) for _ in range(n + 2)})
+        if len(xs) < 2:
+            xs = [0.0, 1.0]
+        mode = ("xpts",)
+    ys = [rng.choice([0.0, 1.0, 2.0, 3.5, 5.0, 8.0, 0.1, 41.3, 7.25, -1.5, -0.25]) for _ in xs]
+    return list(zip(xs, ys)), mode
+
+
+def gen_flow(rng, refs, consts):
+    """a flow: uniflow / biflow with an equation, or (wave 2) a flow DEFINED by a graphical function"""
+    if rng.chance(1, 5):
+        pts, mode = gen_table(rng)
+        return ("gflow", rng.chance(1, 2), gen_ex(rng, refs, consts, 1), pts, mode)
+    return ("flow", rng.chance(1, 2), gen_ex(rng, refs, consts, 2))
 
 
 def ex_refs(e):
@@ -191,6 +246,8 @@ def xmile_doc(elems, start, stop, d, name="c04"):
             body = f"\t\t\t\t<eqn>{ex_x(el[1])}</eqn>\n"
             body += "".join(f"\t\t\t\t<inflow>{nm(x)}</inflow>\n" for x in el[2])
             body += "".join(f"\t\t\t\t<outflow>{nm(x)}</outflow>\n" for x in el[3])
+            if stock_nn(el):
+                body += "\t\t\t\t<non_negative/>\n"
             v.append(f'\t\t\t<stock name="{nm(i)}">\n{body}\t\t\t</stock>\n')
         elif el[0] == "flow":
             nn = "\t\t\t\t<non_negative/>\n" if el[1] else ""
@@ -198,12 +255,17 @@ def xmile_doc(elems, start, stop, d, name="c04"):
         elif el[0] == "aux":
             v.append(f'\t\t\t<aux name="{nm(i)}">\n\t\t\t\t<eqn>{ex_x(el[1])}</eqn>\n\t\t\t</aux>\n')
         else:
-            pts, mode = el[2], el[3]
+            pts, mode = el_table(el)
             ys = ",".join(repr(p[1]) for p in pts)
             if mode[0] == "scale":
                 xs = f'<xscale min="{mode[1]!r}" max="{mode[2]!r}"/>'
             else:
                 xs = "<xpts>" + ",".join(repr(p[0]) for p in pts) + "</xpts>"
+            if el[0] == "gflow":
+                nn = "\t\t\t\t<non_negative/>\n" if el[1] else ""
+                v.append(f'\t\t\t<flow name="{nm(i)}">\n\t\t\t\t<eqn>{ex_x(el[2])}</eqn>\n\t\t\t\t<gf>\n\t\t\t\t\t{xs}\n'
+                         f'\t\t\t\t\t<yscale min="0" max="100"/>\n\t\t\t\t\t<ypts>{ys}</ypts>\n\t\t\t\t</gf>\n{nn}\t\t\t</flow>\n')
+                continue
             v.append(f'\t\t\t<aux name="{nm(i)}">\n\t\t\t\t<eqn>{ex_x(el[1])}</eqn>\n\t\t\t\t<gf>\n\t\t\t\t\t{xs}\n'
                      f'\t\t\t\t\t<yscale min="0" max="100"/>\n\t\t\t\t\t<ypts>{ys}</ypts>\n\t\t\t\t</gf>\n\t\t\t</aux>\n')
     return ('<?xml version="1.0" encoding="utf-8"?>\n'
@@ -239,7 +301,7 @@ def build_dsl(elems, start, stop, dt, name="c04dsl"):
     for i, el in enumerate(elems):
         if el[0] == "stock":
             obj[i] = m.stock(nm(i))
-        elif el[0] == "flow":
+        elif el[0] in ("flow", "gflow"):
             obj[i] = m.flow(nm(i)) if el[1] else m.biflow(nm(i))
         elif el[0] == "aux" and el[1][0] == "L":
             obj[i] = m.constant(nm(i))
@@ -277,7 +339,12 @@ def build_dsl(elems, start, stop, dt, name="c04dsl"):
     for i, el in enumerate(elems):
         if el[0] == "stock":
             init = el[1]
-            if init[0] == "L":
+            if stock_nn(el):         # the DSL has no non-negative stock: spell out what the transpiler does (max(0, initial value))
+                h = m.converter(f"init_{nm(i)}")
+                v0 = dx(init)
+                h.equation = sd.max(0.0, v0)
+                obj[i].initial_value = h
+            elif init[0] == "L":
                 obj[i].initial_value = float(init[1])
             elif init[0] == "R" and elems[init[1]][0] == "aux":
                 obj[i].initial_value = obj[init[1]]
@@ -305,8 +372,8 @@ def build_dsl(elems, start, stop, dt, name="c04dsl"):
         elif el[0] == "aux":
             obj[i].equation = as_eq(dx(el[1]))
         else:
-            m.points[f"p_{nm(i)}"] = [[p[0], p[1]] for p in el[2]]
-            arg = dx(el[1])
+            m.points[f"p_{nm(i)}"] = [[p[0], p[1]] for p in el_table(el)[0]]
+            arg = dx(el_eq(el))
             obj[i].equation = sd.lookup(arg, f"p_{nm(i)}")
     return m
 
@@ -369,7 +436,8 @@ def ref_euler(elems, dt, labels):
             el = elems[i]
             if el[0] == "stock":
                 if k == 0:
-                    return ev(el[1])
+                    v0 = ev(el[1])
+                    return (v0 if v0 > 0 else 0.0) if stock_nn(el) else v0     # non-negative stock: initial value only
                 p = rows[k - 1]
                 ins, outs = el[2], el[3]
 
@@ -392,6 +460,9 @@ def ref_euler(elems, dt, labels):
                 return (v if v > 0 else 0.0) if el[1] else v
             if el[0] == "aux":
                 return ev(el[1])
+            if el[0] == "gflow":
+                v = py_lerp(el[3], ev(el[2]))
+                return (v if v > 0 else 0.0) if el[1] else v
             return py_lerp(el[2], ev(el[1]))
         for i in range(n):
             val(i)
@@ -416,7 +487,9 @@ def ex_wire(e):
 def elem_wire(el):
     lst = lambda xs: ",".join(map(str, xs)) if xs else "-"
     if el[0] == "stock":
-        return f"stock {ex_wire(el[1])} ; {lst(el[2])} ; {lst(el[3])}"
+        return f"{'nnstock' if stock_nn(el) else 'stock'} {ex_wire(el[1])} ; {lst(el[2])} ; {lst(el[3])}"
+    if el[0] == "gflow":
+        return f"gflow {1 if el[1] else 0} {ex_wire(el[2])} ; " + ",".join(f"{fbits(p[0])}:{fbits(p[1])}" for p in el[3])
     if el[0] == "flow":
         return f"flow {1 if el[1] else 0} {ex_wire(el[2])}"
     if el[0] == "aux":
@@ -505,7 +578,9 @@ class Case:
         elems = []
         for e in j["elems"]:
             if e[0] == "stock":
-                elems.append(("stock", tup(e[1]), list(e[2]), list(e[3])))
+                elems.append(("stock", tup(e[1]), list(e[2]), list(e[3]), bool(e[4]) if len(e) > 4 else False))
+            elif e[0] == "gflow":
+                elems.append(("gflow", bool(e[1]), tup(e[2]), [tuple(p) for p in e[3]], tuple(e[4])))
             elif e[0] == "flow":
                 elems.append(("flow", e[1], tup(e[2])))
             elif e[0] == "aux":
@@ -532,11 +607,12 @@ def evaluate_case(c, scratch, want_dsl=True, want_down=False, bp=None):
     out["texts"] = equation_texts(base, n)
     pts_ok = True
     for i, el in enumerate(c.elems):
-        if el[0] == "gf":
+        if el_table(el) is not None:
             got = [tuple(map(float, p)) for p in sim.points.get(nm(i), [])]
-            if [fbits(a) + fbits(b) for a, b in got] != [fbits(a) + fbits(b) for a, b in el[2]]:
+            if [fbits(a) + fbits(b) for a, b in got] != [fbits(a) + fbits(b) for a, b in el_table(el)[0]]:
                 pts_ok = False
     out["points_ok"] = pts_ok
+    out["keys_bad"] = grid_keys_check(mod, sim, c, labels) if grid_ok else None
     if want_down and len(labels) <= 60:
         out["xm_down"] = run_xmile(mod, n, labels, order="down")[0]
     if want_dsl:
@@ -568,6 +644,35 @@ def evaluate_case(c, scratch, want_dsl=True, want_down=False, bp=None):
     return out
 
 
+def grid_keys_check(mod, sim, c, labels):
+    """GridOK on doubles, clause by clause (wave 2): the generated `grid_time` is util.floating_point.normalize with the
+    precision max(scale start, scale dt) (the function C05's `normalize` models), it fixes every label (normLabel), it
+    takes `label(k+1) - dt` to `label k` bit for bit (prevLabel), and after the ascending run every memo key is a label.
+    Returns None or a description of the first clause that fails."""
+    gt = getattr(mod, "grid_time", None)
+    if gt is None:
+        return None
+    from BPTK_Py.util.floating_point import normalize, scale
+    start, dt = float(c.start), c.dt
+    prec = max(scale(start), scale(dt))
+    for k, t in enumerate(labels):
+        for what, x in (("label", t),) + ((("label(k+1)-dt", labels[k + 1] - dt),) if k + 1 < len(labels) else ()):
+            a = gt(x, dt, start)
+            b = normalize(x, dt, start, prec)
+            if fbits(float(a)) != fbits(float(b)):
+                return {"clause": "grid_time = normalize", "k": k, "x": x, "grid_time": a, "normalize": b}
+            if fbits(float(a)) != fbits(t):
+                return {"clause": "normLabel" if what == "label" else "prevLabel", "k": k, "x": x, "key": a, "label": t}
+    lab = {fbits(t) for t in labels}
+    for name, memo in sim.memo.items():
+        for key in memo.keys():
+            if fbits(float(key)) not in lab:
+                return {"clause": "memo key is not a label", "elem": name, "key": key}
+    if not (labels[0] <= start) or any(t <= start for t in labels[1:]):
+        return {"clause": "start test"}
+    return None
+
+
 def spec_failure(c, ev):
     """the property's right-hand side, computed independently: returns (key, text, detail) or None"""
     if not ev["specs_ok"]:
@@ -575,7 +680,7 @@ def spec_failure(c, ev):
     if not ev["grid_ok"]:
         return None   # the grid labels themselves are C05's subject; values are compared on the labels the code uses
     ref = ref_euler(c.elems, c.dt, ev["labels"])
-    has_gf = any(e[0] == "gf" for e in c.elems)
+    has_gf = any(el_table(e) is not None for e in c.elems)
     for which in ("xm_bptk", "dsl_bptk"):
         if which in ev and [fbits(t) for t in ev[which + "_index"]] != [fbits(t) for t in ev["labels"]]:
             return ("grid-rows", f"{which}: run_scenarios returns rows at {ev[which + '_index'][:4]}...{ev[which + '_index'][-2:]} "
@@ -620,12 +725,7 @@ def shrink_case(c, fails):
             for j, el in enumerate(best.elems):
                 if j == i:
                     continue
-                if el[0] == "stock":
-                    used |= ex_refs(el[1])
-                elif el[0] == "flow":
-                    used |= ex_refs(el[2])
-                else:
-                    used |= ex_refs(el[1])
+                used |= ex_refs(el_eq(el))
             if i in used:
                 continue
             ren = lambda x: x - 1 if x > i else x
@@ -643,7 +743,9 @@ def shrink_case(c, fails):
                 if j == i:
                     continue
                 if el[0] == "stock":
-                    new.append(("stock", rex(el[1]), [ren(x) for x in el[2] if x != i], [ren(x) for x in el[3] if x != i]))
+                    new.append(("stock", rex(el[1]), [ren(x) for x in el[2] if x != i], [ren(x) for x in el[3] if x != i], stock_nn(el)))
+                elif el[0] == "gflow":
+                    new.append(("gflow", el[1], rex(el[2]), el[3], el[4]))
                 elif el[0] == "flow":
                     new.append(("flow", el[1], rex(el[2])))
                 elif el[0] == "aux":
@@ -671,13 +773,15 @@ def probe_skeletons():
     return probe_skeleton_shapes([(ni, no) for ni in range(4) for no in range(4)])
 
 
-def probe_skeleton_shapes(shapes):
+def probe_skeleton_shapes(shapes, nonneg=False):
     from BPTK_Py.sdcompiler.plugins import StockExpressions
     from BPTK_Py.sdcompiler.generator.py.py import parseExpression
     out = []
     for ni, no in shapes:
         ent = {"name": "e0", "inflow": [nm(1 + i) for i in range(ni)], "outflow": [nm(1 + ni + i) for i in range(no)],
                "equation_parsed": [7.5]}
+        if nonneg:      # what parse_xmile does with <non_negative/> (xmile.py: "Handle Non-Negative stocks")
+            ent["equation_parsed"] = {"name": 'max', "type": 'call', "args": [0, [7.5]]}
         IR = {"models": {"": {"name": "", "entities": {"stock": [ent], "flow": []}}}}
         IR = StockExpressions(IR)
         text = parseExpression(IR["models"][""]["entities"]["stock"][0]["equation_parsed"])
@@ -711,6 +815,31 @@ def probe_memo_normalises(scratch):
         v = float(sim.equation("e0", labels[k]))
         if fbits(v) != fbits(ref[k][0]):
             bad.append((labels[k], v, ref[k][0]))
+    return (not bad), bad, c
+
+
+PROBE_GF_ELEMS = [("stock", ("L", 0.0), [1], [2], False),
+                  ("gflow", False, ("T",), [(0.0, 1.0), (10.0, 21.0)], ("xpts",)),
+                  ("gflow", True, ("-", ("T",), ("L", 4.0)), [(-5.0, -7.0), (5.0, 3.0)], ("scale", -5.0, 5.0))]
+
+
+def probe_flow_gf(scratch):
+    """repaired mechanism (fixes/C04-flow-gf): a <flow> that carries a <gf> is the graphical function of its equation
+    (uniflow: clamped after the lookup); on the pinned tree the table was dropped and the flow was its bare equation."""
+    c = Case(PROBE_GF_ELEMS, "0", "3", ("1", None), 3)
+    labels = impl_labels(c.start, c.stop, c.dt)
+    ref = ref_euler(c.elems, c.dt, labels)
+    bad = []
+    try:
+        mod, base = compile_xmile_model(c.elems, c.start, c.stop, c.d, scratch)
+        sim = mod.simulation_model()
+        for k, t in enumerate(labels):
+            for i in (1, 2):
+                v = float(sim.equation(nm(i), t))
+                if not math.isclose(v, ref[k][i], rel_tol=1e-12, abs_tol=1e-12):
+                    bad.append((nm(i), t, v, ref[k][i]))
+    except Exception as ex:
+        bad.append((nm(1), labels[0], f"{type(ex).__name__}: {ex}", ref[0][1]))
     return (not bad), bad, c
 
 
@@ -772,7 +901,9 @@ def _run(chk, scratch):
 def _run2(chk, scratch, bp):
     skels = probe_skeletons()
     normalises, bad_probe, probe_case = probe_memo_normalises(scratch)
+    flow_gf_ok, bad_gf, gf_probe_case = probe_flow_gf(scratch)
     chk.notes["cfg"] = {"memoNormalises": normalises}
+    chk.notes["probe_flow_gf_applied"] = flow_gf_ok
     chk.notes["skeleton_texts"] = {f"{a}in{b}out": t for a, b, t, _ in skels}
     ok, why = chk.prove(gen_lean(skels, normalises), extra_sources=["Bptk/Core/PyFrag.lean", "Bptk/Proofs/PyFrag.lean"])
     chk.cov["trusted_base"] = [
@@ -780,18 +911,21 @@ def _run2(chk, scratch, bp):
         "model lean/Bptk/Core/C04.lean of the generated class (memoize, equations) and of StockExpressions' output; tied to /repo per run by the skeleton probe (token equality + denotation), by the per-model check that every emitted equation text denotes compile M, and by the bit-exact simulation correspondence",
         "A1 Python-fragment parser (lean/Bptk/Core/PyFrag.lean) and the Python-side lexer harness/pyfrag.py",
         "CPython float + - * / comparisons = IEEE double = Lean Float; scipy interp1d (LERP interior) is opaque: compared with tolerance 1e-12",
-        "time keys: the normalising memoize is represented by the hypothesis KeysOnGrid (normalised t-dt from label k+1 is label k), discharged for the rational model with bounded rounding error (normalize_keys_on_grid) and exercised on floats by the correspondence",
+        "time keys: the normalising memoize is represented by the hypothesis GridOK (normalised t-dt from label k+1 is label k), discharged (a) for the rational model with bounded rounding error (normalize_keys_on_grid), (b) wave 2: for C05's float adversary Fl on every decimal grid under C05's explicit Budget (gridOK_of_C05, from Bptk.C05.normalize_near), and checked clause by clause on the doubles of every case (grid_time = util normalize bit for bit, normLabel, prevLabel, memo keys = labels)",
+        "wave 2: IEEE doubles as an instance of Bptk.C05.Fl (bounded relative error, monotone, idempotent) and the Budget inequalities for u = 2^-53 are C05's trusted part; reciprocal dt that are not decimal fractions (1/3, 1/7, ...) are outside C05's Grid (decimal start and step) - for them the key clauses are checked on the doubles of every run only",
+        "wave 2: element names e<n> for any n via the proved coding nameIx (nmG n) = n; shapes beyond 0..3 x 0..3 are compared token for token by the driver (skeletonTextOK / skeletonTextNNOK), parse + denotation for any n is skeletonTextOK_sound / stock_text_denotes",
     ]
     chk.assumptions = ["acyclic models (a rank function on same-time references exists)",
                        "equation vocabulary of the generated graphs: + - * / MAX MIN IF-THEN-ELSE TIME DT literals references; other builtins are C03's subject",
                        "the time labels themselves (util.timerange) are C05's subject: values are compared on the labels the code uses, after checking count, first, last and |label - (start+k*dt)| < 1e-9"]
-    chk.cov["rule"] = ("generated stock/flow graphs (1-4 stocks, 0-3 inflows and outflows each incl. stock-to-stock flows, uniflows and biflows, "
-                       "auxiliaries, constants, a graphical function) x run specs (start in {0,1,0.5,2}, dt in {1,.5,.25,.125,.2,.1,.05,.01,1/2,1/3,1/4,1/7,1/8,1/10} "
-                       "decimal and reciprocal spelling); each written as XMILE (compiled by the real compiler) and as SD-DSL model; every element at every grid "
+    chk.cov["rule"] = ("generated stock/flow graphs (1-4 stocks, 0-3 (1 in 8: 4-7) inflows and outflows each incl. stock-to-stock flows, uniflows and biflows, "
+                       "flows defined by a graphical function (uniflow: clamped after the lookup), non-negative stocks (initial value clamped, integration not), "
+                       "auxiliaries, constants, a graphical function) x run specs (start in {0,1,0.5,2,2020,1999.5}, dt in {1,.5,.25,.125,.2,.1,.05,.01,1/2,1/3,1/4,1/6,1/7,1/8,1/9,1/10,1/12} "
+                       "decimal and reciprocal spelling; in every run, both tiers: 1/3 1/7 1/9 1/12 1/6 0.1 0.05 0.01 from start 2020); each written as XMILE (compiled by the real compiler) and as SD-DSL model; every element at every grid "
                        "point; compared as IEEE bit patterns with the Lean driver, the Python reference Euler loop and each other; a case = (graph, run spec); "
                        "non-trivial = dt is not a binary fraction or the graph has >= 2 stocks")
     rng = chk.rng.fork("c04")
-    ncases = 60 if chk.quick else 700
+    ncases = 96 if chk.quick else 760
     cases = []
     # corpus first
     cdir = os.path.join(VERIF, "corpus", "C04")
@@ -814,34 +948,84 @@ def _run2(chk, scratch, bp):
             txt = str(stop.numerator) if stop.denominator == 1 else repr(float(stop))
             if Fraction(txt) == stop:
                 cases.append(Case(el, "0", txt, d, n))
+    # wave 2, in BOTH tiers: reciprocal / decimal dt that are not binary fractions from calendar-year starts, on a stock
+    # with inflows and outflows (index snapping vs. rounding to decimal places), a non-negative stock whose initial value
+    # the clamp changes and that goes below zero afterwards, a uniflow and a biflow defined by graphical functions, and
+    # more than 3 inflows / outflows
+    cases.append(gf_probe_case)
+    for wi, (d, start) in enumerate(W2_SPECS):
+        fd = Fraction(d[0]) if d[0] is not None else Fraction(1, d[1])
+        n = 2 * d[1] if d[0] is None else 12
+        stop = Fraction(start) + n * fd
+        txt = str(stop.numerator) if stop.denominator == 1 else repr(float(stop))
+        if Fraction(txt) != stop:
+            continue
+        if wi % 3 == 0:
+            el = [("stock", ("L", 1.0), [1, 2], [3], False),
+                  ("flow", True, ("*", ("L", 0.25), ("R", 0))), ("flow", False, ("L", 0.3)), ("flow", True, ("*", ("L", 0.1), ("R", 0)))]
+        elif wi % 3 == 1:
+            el = [("stock", ("-", ("L", 0.5), ("L", 2.0)), [1], [2], True),
+                  ("gflow", True, ("-", ("T",), ("L", float(Fraction(start)))), [(0.0, -1.0), (0.5, 0.25), (2.0, 3.0)], ("xpts",)),
+                  ("gflow", False, ("R", 0), [(-5.0, 2.0), (0.0, 1.0), (5.0, -2.0)], ("scale", -5.0, 5.0))]
+        else:
+            el = [("stock", ("L", 2.0), [1, 2, 3, 4, 5], [6, 7, 8, 9], wi % 2 == 0)]
+            for j in range(9):
+                el.append(("flow", j % 2 == 0, ("*", ("L", LITS[j % len(LITS)]), ("R", 0)) if j % 4 == 0 else ("L", LITS[(j + 5) % len(LITS)])))
+        cases.append(Case(el, start, txt, d, n))
     while len(cases) < ncases:
         start, stop, d, n = grid_spec(rng, chk.quick)
         cases.append(Case(gen_graph(rng), start, stop, d, n))
 
     req, meta = [], []
-    dist = {"dt": {}, "stocks": {}, "flows_in_out": {}, "gf": 0, "uniflow": 0, "biflow": 0, "grid_points": 0}
+    dist = {"dt": {}, "start": {}, "stocks": {}, "flows_in_out": {}, "gf": 0, "uniflow": 0, "biflow": 0, "grid_points": 0,
+            "nonneg_stocks": 0, "nonneg_stocks_clamped_at_start": 0, "nonneg_stocks_below_zero_later": 0,
+            "gf_uniflow": 0, "gf_biflow": 0}
+    keys_fail = None
     first_fail = None
     corr_fail = None
     results = []
     for ci, c in enumerate(cases):
-        ev = evaluate_case(c, scratch, want_dsl=True, want_down=(ci % 4 == 0), bp=bp)
+        try:
+            ev = evaluate_case(c, scratch, want_dsl=True, want_down=(ci % 4 == 0), bp=bp)
+        except Exception as ex:       # the real compiler / generated class / DSL raised on a well-formed model
+            import traceback
+            tb = traceback.format_exc().strip().splitlines()
+            if first_fail is None and (flow_gf_ok or not any(e[0] == "gflow" for e in c.elems)):
+                first_fail = (c, ("impl-exception", f"compiling or simulating the model raised {type(ex).__name__}: {ex} ({tb[-3].strip() if len(tb) > 2 else ''})",
+                                  {"exception": repr(ex), "traceback": tb[-6:]}))
+            results.append(None)
+            chk.case(c.canon(), nontrivial=True, sample={"dt": dt_name(c.d), "start": c.start, "stop": c.stop, "raised": repr(ex)[:200]})
+            continue
         results.append(ev)
         dist["dt"][dt_name(c.d)] = dist["dt"].get(dt_name(c.d), 0) + 1
+        dist["start"][c.start] = dist["start"].get(c.start, 0) + 1
+        if keys_fail is None and ev.get("keys_bad"):
+            keys_fail = (ci, c, ev["keys_bad"])
         ns = sum(1 for e in c.elems if e[0] == "stock")
         dist["stocks"][ns] = dist["stocks"].get(ns, 0) + 1
         for e in c.elems:
             if e[0] == "stock":
                 kk = f"{len(e[2])}/{len(e[3])}"
                 dist["flows_in_out"][kk] = dist["flows_in_out"].get(kk, 0) + 1
+                if stock_nn(e):
+                    si = c.elems.index(e)
+                    dist["nonneg_stocks"] += 1
+                    col = [r[si] for r in ev["xm"]]
+                    if col and col[0] == 0.0 and e[1][0] == "-":
+                        dist["nonneg_stocks_clamped_at_start"] += 1
+                    if any(x < 0 for x in col[1:]):
+                        dist["nonneg_stocks_below_zero_later"] += 1
             elif e[0] == "gf":
                 dist["gf"] += 1
+            elif e[0] == "gflow":
+                dist["gf_uniflow" if e[1] else "gf_biflow"] += 1
             elif e[0] == "flow":
                 dist["uniflow" if e[1] else "biflow"] += 1
         dist["grid_points"] += len(ev["labels"])
         binary = c.d[0] in ("1", "0.5", "0.25", "0.125") or c.d[1] in (2, 4, 8)
         chk.case(c.canon(), nontrivial=(not binary) or ns >= 2,
-                 sample={"dt": dt_name(c.d), "start": c.start, "stop": c.stop, "xmile_eqns": [ex_xmile(e[1] if e[0] != "flow" else e[2]) for e in c.elems][:6]})
-        if first_fail is None:
+                 sample={"dt": dt_name(c.d), "start": c.start, "stop": c.stop, "xmile_eqns": [ex_xmile(el_eq(e)) for e in c.elems][:6]})
+        if first_fail is None and (flow_gf_ok or not any(e[0] == "gflow" for e in c.elems)):
             sf = spec_failure(c, ev)
             if sf is not None:
                 first_fail = (c, sf)
@@ -856,22 +1040,28 @@ def _run2(chk, scratch, bp):
         req.append(f"skel|{ni}|{no}|" + " ".join(words))
         meta.append(("skel", bi))
     chk.cov["large_skeleton_shapes_checked_by_driver"] = [f"{a}/{b}" for a, b, _, _ in big]
+    bignn = probe_skeleton_shapes([(0, 0), (1, 0), (0, 1), (2, 2), (3, 1), (5, 4), (12, 12)], nonneg=True)
+    for bi, (ni, no, _text, words) in enumerate(bignn):
+        req.append(f"skelnn|{ni}|{no}|" + " ".join(words))
+        meta.append(("skelnn", bi))
     model = drive("C04", req)
     chk.cov["traces_validated_against_impl"] = len(cases)
-    ngrid_bad = sum(1 for ev in results if not ev["grid_ok"])
+    ngrid_bad = sum(1 for ev in results if ev is not None and not ev["grid_ok"])
     chk.cov["grids_not_exact_reported_under_C05"] = ngrid_bad
-    chk.cov["run_scenarios_rows_beyond_stop_reported_under_C05"] = sum(ev.get("xm_bptk_extra", 0) + ev.get("dsl_bptk_extra", 0) for ev in results)
+    chk.cov["run_scenarios_rows_beyond_stop_reported_under_C05"] = sum(ev.get("xm_bptk_extra", 0) + ev.get("dsl_bptk_extra", 0) for ev in results if ev is not None)
     n_tol = 0
     for (kind, ci), reply in zip(meta, model):
         if corr_fail is not None:
             break
-        if kind == "skel":
+        if kind in ("skel", "skelnn"):
             if reply != "ok":
-                ni, no, text, _ = big[ci]
+                ni, no, text, _ = (big if kind == "skel" else bignn)[ci]
                 corr_fail = ("skeleton-large", f"StockExpressions text for {ni} inflows / {no} outflows is not the intended skeleton "
                              f"(Bptk.C04.skeletonTextOK answers {reply!r}): {text[:300]}", {"nin": ni, "nout": no, "text": text, "reply": reply})
             continue
         c, ev = cases[ci], results[ci]
+        if not flow_gf_ok and any(e[0] == "gflow" for e in c.elems):
+            continue      # already reported with its own key (xmile-flow-gf-ignored) and a concrete input
         if kind == "chk":
             if reply != "ok":
                 idx = int(reply.split()[1]) if reply.startswith("diff") else -1
@@ -882,7 +1072,7 @@ def _run2(chk, scratch, bp):
             corr_fail = ("driver", f"case {ci}: driver rejected the model", {"case": c.to_json()})
             continue
         rows = [[(from_fbits(x) if x != "ERR" else None) for x in r.split(",")] for r in reply.split(";")]
-        has_gf = any(e[0] == "gf" for e in c.elems)
+        has_gf = any(el_table(e) is not None for e in c.elems)
         for which in ("xm", "dsl", "xm_down", "xm_bptk", "dsl_bptk"):
             if which not in ev:
                 continue
@@ -916,14 +1106,23 @@ def _run2(chk, scratch, bp):
                                bp=(bp if detail.get("which", "").endswith("_bptk") else None))
             s2 = spec_failure(cc, e2)
             return s2 is not None and s2[0] == key
-        try:
-            small = shrink_case(c, fails)
-        except Exception:
-            small = c
-        ev = evaluate_case(small, scratch, want_dsl=True, want_down=True, bp=bp)
-        sf = spec_failure(small, ev) or (key, text, detail)
+        if key == "impl-exception":
+            small, sf = c, (key, text, detail)
+        else:
+            try:
+                small = shrink_case(c, fails)
+            except Exception:
+                small = c
+            ev = evaluate_case(small, scratch, want_dsl=True, want_down=True, bp=bp)
+            sf = spec_failure(small, ev) or (key, text, detail)
         chk.add_finding(sf[0], sf[1], {"case": small.to_json(), "xmile": xmile_doc(small.elems, small.start, small.stop, small.d),
                                        "detail": sf[2], "dt": dt_name(small.d)})
+    elif not flow_gf_ok:
+        q, t, got, want = bad_gf[0]
+        chk.add_finding("xmile-flow-gf-ignored", f"probe: flow {q} defined by a graphical function: value at t={t!r} is {got!r}, "
+                        f"the graphical function of its equation gives {want!r} (the <gf> of a <flow> is dropped by the transpiler)",
+                        {"case": gf_probe_case.to_json(), "xmile": xmile_doc(gf_probe_case.elems, gf_probe_case.start, gf_probe_case.stop, gf_probe_case.d),
+                         "detail": {"bad": bad_gf[:5]}, "dt": "1"})
     elif not normalises:
         lab, got, want = bad_probe[0]
         chk.add_finding("xmile-not-euler", f"probe: stock with inflow 1, dt 0.1: S({lab!r}) = {got!r}, Euler gives {want!r}",
@@ -934,6 +1133,11 @@ def _run2(chk, scratch, bp):
                          "skeletons": {f"{a}in{b}out": t for a, b, t, _ in skels}}, found_input=False)
     if corr_fail is not None and first_fail is None:
         chk.add_finding("correspondence", corr_fail[1], dict(corr_fail[2], stream=corr_fail[0]), found_input=False)
+    elif keys_fail is not None and first_fail is None and normalises:
+        ci, c, kb = keys_fail
+        chk.add_finding("correspondence", f"case {ci}: the time keys of the generated memoize leave the grid (GridOK hypothesis of "
+                        f"xmile_run_eq_euler / gridOK_of_C05 fails on doubles): {kb}", {"case": c.to_json(), "stream": "grid-keys", "detail": kb},
+                        found_input=False)
 
 
 def replay(path):
@@ -947,9 +1151,14 @@ def replay(path):
     c = Case.from_json(r["case"])
     scratch = scratch_dir("bptkc04r")
     try:
-        ev = evaluate_case(c, scratch, want_dsl=True, want_down=True)
+        print(f"start {c.start} stop {c.stop} dt {dt_name(c.d)}; elements: {[e[0] + ('!' if (e[0] == 'stock' and stock_nn(e)) or (e[0] in ('flow', 'gflow') and e[1]) else '') for e in c.elems]}")
+        try:
+            ev = evaluate_case(c, scratch, want_dsl=True, want_down=True)
+        except Exception as ex:
+            print(f"on the current tree: compiling or simulating the model raises {type(ex).__name__}: {ex}")
+            return 1
         sf = spec_failure(c, ev)
-        print("xmile equations:", [ex_xmile(e[1] if e[0] != "flow" else e[2]) for e in c.elems])
+        print("xmile equations:", [ex_xmile(el_eq(e)) for e in c.elems])
         print(f"start {c.start} stop {c.stop} dt {dt_name(c.d)}")
         print("on the current tree:", sf if sf else "explicit Euler at every grid point")
         return 1 if sf else 0
